@@ -38,6 +38,6 @@ GenNext ==
      \/ (it.open /\ RangeKeys(it) # {} /\ Seek(Nth(Asc(RangeKeys(it)), D(17))))
      \/ ItNext
      \/ (it.open /\ (it.pos = AtEnd \/ rng % 7 = 0) /\ ItClose)
-GenInit == Init /\ rng \in 0..499
+GenInit == Init /\ rng \in 0..39
 GenSpec == GenInit /\ [][GenNext]_gvars
 =============================================================================
